@@ -7,7 +7,7 @@ the target first and then a spelling for it).
 import posixpath
 import random
 
-INLINE_KINDS = ('img', 'css', 'script', 'cssurl', 'iframe')
+INLINE_KINDS = ('img', 'css', 'script', 'cssurl', 'cssimport', 'iframe')
 
 
 class Page(object):
@@ -44,8 +44,11 @@ class Page(object):
             parts.append('</body></html>')
             return ''.join(parts).encode('utf-8')
         if self.kind == 'css':
-            return ('body { color: black; }\n' + ''.join(
-                '.c%d { background: url("%s"); }\n' % (i, l['href']) for i, l in enumerate(self.links))).encode()
+            imports = ''.join(('@import url("%s");\n' if i % 2 else '@import "%s";\n') % l['href']
+                              for i, l in enumerate(self.links) if l['kind'] == 'cssimport')
+            return (imports + 'body { color: black; }\n' + ''.join(
+                '.c%d { background: url("%s"); }\n' % (i, l['href']) for i, l in enumerate(self.links)
+                if l['kind'] != 'cssimport')).encode()
         if self.kind == 'img':
             return b'\x89PNG\r\n\x1a\n' + b'0' * 20
         if self.kind == 'js':
@@ -200,6 +203,16 @@ def generate(rng, host='a.test', n_pages=None, requisites=True, redirects=True, 
                     bg = fresh('bg', 'png')
                     add_link(rng, site, css.url, bg.url, 'cssurl', ['relative', 'abs-path', 'absolute'])
                     site.features.add('css-url')
+                if rng.random() < 0.35:
+                    # a chain of imported style sheets; only the last one refers to the image
+                    cur = css
+                    for _ in range(rng.choice([1, 2])):
+                        imp = fresh('imported', 'css')
+                        add_link(rng, site, cur.url, imp.url, 'cssimport', ['relative', 'abs-path', 'absolute'])
+                        cur = imp
+                    deep = fresh('deep', 'png')
+                    add_link(rng, site, cur.url, deep.url, 'cssurl', ['relative', 'abs-path'])
+                    site.features.add('css-import-chain')
             if rng.random() < 0.15:
                 js = fresh('app', 'js')
                 add_link(rng, site, u, js.url, 'script', allow)
@@ -220,7 +233,17 @@ def generate(rng, host='a.test', n_pages=None, requisites=True, redirects=True, 
             d = rng.choice(dirs)
             r = site.add(Page(base + d + 'r%d' % serial[0], 'redirect'))
             r.status = rng.choice([301, 302, 303, 307, 308])
-            target = fresh('landing', 'html', d)
+            # the landing page may live in another directory than the redirecting URL and links onwards relatively
+            d2 = d if rng.random() < 0.5 else rng.choice(dirs)
+            target = fresh('landing', 'html', d2)
+            if rng.random() < 0.6:
+                for _ in range(rng.choice([1, 2])):
+                    after = fresh('after', 'html', d2)
+                    add_link(rng, site, target.url, after.url, 'a', ['relative', 'dot-relative'])
+                if requisites and rng.random() < 0.5:
+                    pic = fresh('landingimg', 'png', d2)
+                    add_link(rng, site, target.url, pic.url, 'img', ['relative'])
+                site.features.add('redirect-target-with-relative-links')
             href, cls = spell(rng, r.url, target.url, ['relative', 'abs-path', 'absolute', 'default-port'])
             r.location = (href, target.url)
             target.is_redirect_target = True
